@@ -34,6 +34,11 @@ import (
 
 const (
 	defaultQueryTimeout = time.Second * 5
+
+	// The largest dns msg that fits a udp datagram, whatever the client
+	// advertised: 65535 - 20 (ipv4 header) - 8 (udp header). (Over ipv6 it
+	// is 65527.) Sending more fails with EMSGSIZE.
+	maxUDPPayload = 65507
 )
 
 var (
@@ -169,6 +174,9 @@ func getValidUDPSize(opt *dns.OPT) int {
 	}
 	if s < dns.MinMsgSize {
 		s = dns.MinMsgSize
+	}
+	if s > maxUDPPayload {
+		s = maxUDPPayload
 	}
 	return int(s)
 }
